@@ -18,7 +18,7 @@ CHILD = [lambda: Text("hello brave new world"), lambda: Text("中文 wide 字 te
          lambda: cat._table(box=box.ASCII, cols=2, rows=1), lambda: Panel(Text("inner 中"), box=box.ASCII)]
 CHILD_MIN = [1, 2, 1, 3 + 2 * 4, 4]
 BOXES = [box.ROUNDED, box.ASCII, box.DOUBLE, box.HEAVY]
-TITLES = [None, "T", "a long title 中 here"]
+TITLES = [None, "T", "a long title 中 here", Text("Tj", justify="left"), Text("styled 中", style="bold", justify="center")]
 F8 = ["rich/panel.py:Panel.__rich_console__", "rich/padding.py:Padding.__rich_console__", "rich/align.py:Align.__rich_console__",
       "rich/console.py:Console.render_lines", "rich/segment.py:Segment.set_shape", "rich/rule.py:Rule.__rich_console__",
       "rich/bar.py:Bar.__rich_console__", "rich/progress_bar.py:ProgressBar.__rich_console__",
